@@ -607,6 +607,7 @@ func (s *sim) probes() {
 	r := s.rng
 	s.emit("probe %d", s.top)
 	s.emit("spec probe %d", s.top)
+	s.emit("inv %d", s.top)
 	nDet := 3
 	if s.opts.heavy {
 		nDet = len(s.u.txs)
